@@ -18,6 +18,7 @@ import (
 
 	"github.com/google/pprof/internal/graph"
 	"github.com/google/pprof/profile"
+	"github.com/google/pprof/verif/checks/c16"
 	"github.com/google/pprof/verif/internal/drv"
 	"github.com/google/pprof/verif/internal/gen"
 	"github.com/google/pprof/verif/internal/harness"
@@ -391,6 +392,56 @@ func runXProc(c *harness.Ctx) harness.Result {
 	return res
 }
 
+// multi-source: the completion order of the concurrent fetches must not reach the output
+func runFetchOrder(c *harness.Ctx) harness.Result {
+	r := c.Rng
+	drv.IsolateEnv(c.Tmp)
+	n := 2 + r.Intn(5)
+	profs := map[string]*profile.Profile{}
+	var srcs []string
+	for i := 0; i < n; i++ {
+		p := TieProfile(rand.New(rand.NewSource(r.Int63())))
+		// make the sources differ in order-sensitive attributes: main binary, comments, drop_frames
+		for _, m := range p.Mapping {
+			m.File = fmt.Sprintf("/bin/prog%d", i)
+			break
+		}
+		p.Comments = []string{fmt.Sprintf("comment %d", i), "shared"}
+		name := fmt.Sprintf("src%d", i)
+		profs[name] = p
+		srcs = append(srcs, name)
+	}
+	res := harness.Result{NonTrivial: true, Sig: fmt.Sprint("fetchorder", n, c.Index), Sample: map[string]any{"sources": n}}
+	for _, format := range []string{"top", "traces", "comments", "raw", "proto", "tags"} {
+		var first []byte
+		for k := 0; k < 4; k++ {
+			g := c16.NewGate(srcs)
+			g.Profiles, g.Kind = profs, map[string]string{}
+			g.Drive([][]string{srcs, nil}, int64(k)*977+int64(c.Index))
+			s := &drv.Session{Flags: &drv.Flags{Bools: map[string]bool{format: true, "functions": true, "flat": true}, Strs: map[string]string{"output": "out", "symbolize": "none"}, Args: srcs}, Fetch: g}
+			rr := s.Run()
+			if rr.Panic != "" || rr.Err != nil {
+				return harness.Violation("multi-source -%s failed: %v %s", format, rr.Err, rr.Panic)
+			}
+			b := s.Writer.Files["out"].Bytes()
+			if len(b) > 2 && b[0] == 0x1f && b[1] == 0x8b {
+				if zr, err := gzip.NewReader(bytes.NewReader(b)); err == nil {
+					b, _ = io.ReadAll(zr)
+				}
+			}
+			c.Stat("fetch_order_renderings", 1)
+			if k == 0 {
+				first = append([]byte(nil), b...)
+			} else if !bytes.Equal(first, b) {
+				res.Verdict = harness.Violated
+				res.Detail = fmt.Sprintf("-%s of %d sources differs between two completion orders of the concurrent fetches\n%s", format, n, firstDiff(first, b))
+				return res
+			}
+		}
+	}
+	return res
+}
+
 func init() {
 	harness.Children["c08digest"] = func(args []string) int {
 		seed, _ := strconv.ParseInt(args[0], 10, 64)
@@ -406,12 +457,13 @@ func init() {
 	harness.Register(&harness.Check{
 		ID:    "C08",
 		Level: "exploration",
-		Rule: "part orderlaws: tie-rich element sets of 3..6 distinct elements (values in {0,+-1,+-2,+-5}, equal names at different addresses/files/binaries) - EVERY permutation (6..720) is sorted by SortTags (flat, cum) and Nodes.Sort (7 orders incl. entropy with random edges); EdgeMap.Sort is repeated 60x (its input order is a map); the result sequence must be unique (sort.Sort is an insertion sort at these sizes, so any pair the comparator leaves unordered yields two results). part e2e: tie-class profiles (values -2..2, +/- cancelling diff shapes, equal names in several files, duplicate label values) x 21 format/option combinations (top, tree, peek, dot, dot+call_tree, callgrind(+call_tree), tags, traces, raw, proto (gunzipped), topproto, tagroot/tagleaf; with and without nodecount) rendered 8x in one process (fresh map seeds each time) plus web /top /flamegraph /peek /source on two servers; all byte strings equal. part xproc (thorough): the same renderings in 3 fresh processes. non-trivial = every case; distinct = element set / profile shape",
-		Assumptions: []string{"elements of one sort call have distinct identities (names of tags within a node, NodeInfo of nodes in a graph), as in pprof's own data structures", "schedule coverage = map-iteration seeds of repeated runs and fresh processes; fetch completion orders are covered by C16"},
+		Rule: "part orderlaws: tie-rich element sets of 3..6 distinct elements (values in {0,+-1,+-2,+-5}, equal names at different addresses/files/binaries) - EVERY permutation (6..720) is sorted by SortTags (flat, cum) and Nodes.Sort (7 orders incl. entropy with random edges); EdgeMap.Sort is repeated 60x (its input order is a map); the result sequence must be unique (sort.Sort is an insertion sort at these sizes, so any pair the comparator leaves unordered yields two results). part e2e: tie-class profiles (values -2..2, +/- cancelling diff shapes, equal names in several files, duplicate label values) x 21 format/option combinations (top, tree, peek, dot, dot+call_tree, callgrind(+call_tree), tags, traces, raw, proto (gunzipped), topproto, tagroot/tagleaf; with and without nodecount) rendered 8x in one process (fresh map seeds each time) plus web /top /flamegraph /peek /source on two servers; all byte strings equal. part xproc: the same renderings in 3 fresh processes. part fetchorder: 2-6 sources differing in main binary and comments fetched through the gated fetcher under 4 forced completion orders x 6 formats; bytes must be equal. non-trivial = every case; distinct = element set / profile shape",
+		Assumptions: []string{"elements of one sort call have distinct identities (names of tags within a node, NodeInfo of nodes in a graph), as in pprof's own data structures", "schedule coverage = map-iteration seeds of repeated runs and fresh processes, plus forced fetch completion orders (more of them in C16)"},
 		Parts: []harness.Part{
 			{Name: "orderlaws", Quick: 3000, Thor: 100000, Run: runOrderLaws},
 			{Name: "e2e", Quick: 1500, Thor: 30000, Run: runE2E},
 			{Name: "xproc", Quick: 16, Thor: 1500, Run: runXProc},
+			{Name: "fetchorder", Quick: 100, Thor: 5000, Run: runFetchOrder},
 		},
 		MinNonTrivial: func(string) int { return 300 },
 	})
